@@ -298,8 +298,35 @@ fn entry_tags(v: &Value) -> Option<Vec<EntryTag>> {
     tags_from_json(v).map(|ts| ts.iter().map(Tag::to_entry_tag).collect())
 }
 
+fn fault_sql(f: &Value) -> Option<String> {
+    let body = "BEGIN SELECT RAISE(ABORT, 'verif fault'); END";
+    Some(match f["at"].as_str()? {
+        "tag" => format!("CREATE TRIGGER verif_fault BEFORE INSERT ON items_tags WHEN (SELECT COUNT(*) FROM items_tags WHERE item_id = NEW.item_id) = {} {}", f["k"].as_i64().unwrap_or(0), body),
+        "tagdel" => format!("CREATE TRIGGER verif_fault BEFORE DELETE ON items_tags {}", body),
+        "item" => format!("CREATE TRIGGER verif_fault BEFORE INSERT ON items {}", body),
+        "itemupd" => format!("CREATE TRIGGER verif_fault BEFORE UPDATE ON items {}", body),
+        "itemdel" => format!("CREATE TRIGGER verif_fault BEFORE DELETE ON items {}", body),
+        _ => return None,
+    })
+}
+
 impl StoreRun {
+    /// one call, with an optional injected statement fault (a SQLite trigger installed out of band for its duration)
     async fn step(&mut self, op: &Value, page_note: &mut Vec<usize>) -> Value {
+        let fault = op.get("fault").filter(|f| !f.is_null()).and_then(fault_sql);
+        if let (Some(sql), Some(p)) = (&fault, &self.path) {
+            let raw = RawDb::open(p).expect("raw open");
+            raw.exec(sql).expect("install fault trigger");
+        }
+        let r = self.step_inner(op, page_note).await;
+        if let (Some(_), Some(p)) = (&fault, &self.path) {
+            let raw = RawDb::open(p).expect("raw open");
+            raw.exec("DROP TRIGGER IF EXISTS verif_fault").expect("remove fault trigger");
+        }
+        r
+    }
+
+    async fn step_inner(&mut self, op: &Value, page_note: &mut Vec<usize>) -> Value {
         let name = s(op, "op");
         let sid = op["s"].as_u64().unwrap_or(0);
         let kind_opt = io(op, "k").map(kind_of);
@@ -441,7 +468,19 @@ pub fn exec(case: &Value, tag: &str) -> Value {
             let got = run.step(op, &mut page_sizes).await;
             // context for signatures: is there an expired record under this identity?
             let ctx = oracle_ctx(&oracle, op);
-            let expected = oracle.step(op);
+            let faulted = op.get("fault").map_or(false, |f| !f.is_null());
+            let snapshot = if faulted { Some((oracle.profiles.clone(), oracle.seq)) } else { None };
+            let mut expected = oracle.step(op);
+            if let Some((profiles, seq)) = snapshot {
+                // all-or-nothing: under an injected fault the call either has its complete effect (and result) or fails with none
+                *feat.entry(format!("fault:{}", op["fault"]["at"].as_str().unwrap_or("?"))).or_insert(0) += 1;
+                if expected.as_ref() != Some(&got) && got.get("err").is_some() {
+                    *feat.entry("fault:reached".into()).or_insert(0) += 1;
+                    oracle.profiles = profiles;
+                    oracle.seq = seq;
+                    expected = None;
+                }
+            }
             *feat.entry(format!("op:{}", s(op, "op"))).or_insert(0) += 1;
             if let Some(e) = got.get("err") { *feat.entry(format!("err:{}", e.as_str().unwrap_or("?"))).or_insert(0) += 1; }
             if op.get("f").map_or(false, |f| !f.is_null()) { *feat.entry("filtered".into()).or_insert(0) += 1; }
